@@ -19,8 +19,8 @@ ASSUMPTIONS = ["FULL feature configuration", "AsyncRead/AsyncWrite contracts (re
 
 PN = '<hickory_net::tcp::tcp_stream::TcpStream<S> as futures_core::stream::Stream>::poll_next'
 RS = r'TcpStream::pollable_split\(arg1\)\.3'
-READ_L = rf'try\(AsyncRead::poll_read\(TcpStream::pollable_split\(arg1\)\.0,arg2,array::index_mut\({RS}@LenBytes\.bytes,RangeFrom\(var\(pos\)\)\)\)@Ready\.0\)@Continue\.0'
-READ_B = rf'try\(AsyncRead::poll_read\(TcpStream::pollable_split\(arg1\)\.0,arg2,<Vec<T;A> as IndexMut<I>>::index_mut\({RS}@Bytes\.bytes,RangeFrom\(var\(pos\)\)\)\)@Ready\.0\)@Continue\.0'
+READ_L = rf'try\(AsyncRead::poll_read\(TcpStream::pollable_split\(arg1\)\.0,arg2,array::index_mut\({RS}@LenBytes\.bytes,RangeFrom\(var\(\w+\)\)\)\)@Ready\.0\)@Continue\.0'
+READ_B = rf'try\(AsyncRead::poll_read\(TcpStream::pollable_split\(arg1\)\.0,arg2,<Vec<T;A> as IndexMut<I>>::index_mut\({RS}@Bytes\.bytes,RangeFrom\(var\(\w+\)\)\)\)@Ready\.0\)@Continue\.0'
 
 
 def run(cx):
@@ -43,12 +43,12 @@ def run(cx):
         if k:
             by[k].append(s)
     cx.guard('C17.G2', by['clean-end'], {'in-length-prefix-state': rf'^is\({RS},LenBytes\)$', 'zero-bytes-read': rf'^eq\(0,{READ_L}\)$',
-                                         'no-prefix-byte-received': r'^eq\(0,var\(pos\)\)$', 'not-sending': r'^!ok\(var\(send_state\)\)$'}, expect=1, fn=f)
+                                         'no-prefix-byte-received': r'^eq\(0,var\(\w+\)\)$', 'not-sending': r'^!ok\(var\(\w+\)\)$'}, expect=1, fn=f)
     bp = by['broken-pipe']
     cx.check('C17.G2', len(bp) == 2, f.path, 'returns', 'two-broken-pipe-returns', str(len(bp)))
     inlen = [s for s in bp if cx.has_guard(s, rf'^is\({RS},LenBytes\)$')]
     inbody = [s for s in bp if cx.has_guard(s, rf'^is\({RS},Bytes\)$')]
-    cx.guard('C17.G2', inlen, {'zero-bytes-read': rf'^eq\(0,{READ_L}\)$', 'inside-prefix': r'^!eq\(0,var\(pos\)\)$'}, expect=1, fn=f)
+    cx.guard('C17.G2', inlen, {'zero-bytes-read': rf'^eq\(0,{READ_L}\)$', 'inside-prefix': r'^!eq\(0,var\(\w+\)\)$'}, expect=1, fn=f)
     cx.guard('C17.G2', inbody, {'zero-bytes-read': rf'^eq\(0,{READ_B}\)$'}, expect=1, fn=f)
     # EOF in the body state has no other outcome: every path from the `read == 0` edge in state Bytes ends in the error
     eof_b = [s for bb in range(len(f.blocks)) for s, ps in f.edge_props(bb).items() if any(re.search(rf'^eq\(0,{READ_B}\)$', shorten(p)) for p in ps)]
@@ -71,46 +71,46 @@ def run(cx):
         cx.check('C17.G1', 'mem::replace(' in s.term and s.term.rstrip(')').endswith('arg1.peer_addr'), f.path, s.key(), 'message=taken-buffer+peer', s.term[:160], s.loc)
     # new states
     tob = cx.assigns(f, r'^ReadTcpState::Bytes\(', place=None)
-    cx.guard('C17.G1', tob, {'prefix-complete': r'^le\(slice::len\(.*LenBytes\.bytes\),var\(pos\)\)$|^le\(2,var\(pos\)\)$', 'in-length-prefix-state': rf'^is\({RS},LenBytes\)$'}, expect=1, fn=f)
+    cx.guard('C17.G1', tob, {'prefix-complete': r'^le\(slice::len\(.*LenBytes\.bytes\),var\(\w+\)\)$|^le\(2,var\(\w+\)\)$', 'in-length-prefix-state': rf'^is\({RS},LenBytes\)$'}, expect=1, fn=f)
     for s in tob:
         ok = bool(re.search(rf'^ReadTcpState::Bytes\(0,vec::from_elem\(0,cast<usize>\(num::from_be_bytes\({RS}@LenBytes\.bytes\)\)\)\)$', s.term))
         cx.check('C17.G1', ok, f.path, s.key(), 'body-buffer=be16(prefix)-octets-from-position-0', s.term[:160], s.loc)
     tol = cx.assigns(f, r'^ReadTcpState::LenBytes\(', place=None)
-    cx.guard('C17.G1', tol, {'body-complete': rf'^le\(Vec::len\({RS}@Bytes\.bytes\),var\(pos\)\)$', 'in-body-state': rf'^is\({RS},Bytes\)$'}, expect=1, fn=f)
+    cx.guard('C17.G1', tol, {'body-complete': rf'^le\(Vec::len\({RS}@Bytes\.bytes\),var\(\w+\)\)$', 'in-body-state': rf'^is\({RS},Bytes\)$'}, expect=1, fn=f)
     for s in tol:
         cx.check('C17.G1', bool(re.search(r'^ReadTcpState::LenBytes\(0,', s.term)), f.path, s.key(), 'next-frame-starts-at-0', s.term[:80], s.loc)
     # the buffer is only taken when the previous state was Bytes
     took = cx.assigns(f, r'^Option::Some\(mem::replace\(', place=None)
-    cx.guard('C17.G1', took, {'previous-state-was-Bytes': r'^is\(mem::replace\(.*\),Bytes\)$', 'a-new-state-was-produced': r'^ok\(phi\(Option::None\|Option::Some\(ReadTcpState::Bytes\(|^ok\(var\(new_state\)\)$|^ok\(phi\('}, fn=f)
+    cx.guard('C17.G1', took, {'previous-state-was-Bytes': r'^is\(mem::replace\(.*\),Bytes\)$', 'a-new-state-was-produced': r'^ok\(phi\(Option::None\|Option::Some\(ReadTcpState::Bytes\(|^ok\(var\(\w+\)\)$|^ok\(phi\('}, fn=f)
     cx.check('C17.G1', len(took) >= 1, f.path, 'sites', 'buffer-taken-site', str(len(took)))
     # positions advance by the returned count only
-    adv = cx.assigns(f, r'^addwithoverflow\(var\(pos\),', place=None)
-    okadv = all(re.search(r'^addwithoverflow\(var\(pos\),try\((AsyncRead::poll_read|AsyncWrite::poll_write|AsyncWrite::poll_write_vectored)\(', s.term) for s in adv)
+    adv = cx.assigns(f, r'^addwithoverflow\(var\(\w+\),', place=None)
+    okadv = all(re.search(r'^addwithoverflow\(var\(\w+\),try\((AsyncRead::poll_read|AsyncWrite::poll_write|AsyncWrite::poll_write_vectored)\(', s.term) for s in adv)
     cx.check('C17.G1', okadv and len(adv) >= 4, f.path, 'stores', 'positions-grow-by-returned-count', f'{len(adv)} position updates')
     # ---------------------------------------------------------------- Q1 write side
     wv = cx.calls(f, r'AsyncWrite::poll_write_vectored$')
-    cx.guard('C17.Q1', wv, {'state-LenBytes': r'^is\(var\(send_state\)@Some\.0,LenBytes\)$'}, expect=1, fn=f)
+    cx.guard('C17.Q1', wv, {'state-LenBytes': r'^is\(var\(\w+\)@Some\.0,LenBytes\)$'}, expect=1, fn=f)
     for s in wv:
-        ok = bool(re.search(r'\[IoSlice::new\(array::index\(var\(send_state\)@Some\.0@LenBytes\.length,RangeFrom\(var\(pos\)\)\)\),IoSlice::new\(var\(send_state\)@Some\.0@LenBytes\.bytes\)\]\)$', s.term))
+        ok = bool(re.search(r'\[IoSlice::new\(array::index\(var\(\w+\)@Some\.0@LenBytes\.length,RangeFrom\(var\(\w+\)\)\)\),IoSlice::new\(var\(\w+\)@Some\.0@LenBytes\.bytes\)\]\)$', s.term))
         cx.check('C17.Q1', ok, f.path, s.key(), 'first-write=[length[pos..],body]', s.term[-200:], s.loc)
     w = cx.calls(f, r'AsyncWrite::poll_write$')
-    cx.guard('C17.Q1', w, {'state-Bytes': r'^is\(var\(send_state\)@Some\.0,Bytes\)$'}, expect=1, fn=f)
+    cx.guard('C17.Q1', w, {'state-Bytes': r'^is\(var\(\w+\)@Some\.0,Bytes\)$'}, expect=1, fn=f)
     fl = cx.calls(f, r'AsyncWrite::poll_flush$')
-    cx.guard('C17.Q1', fl, {'state-Flushing': r'^is\(var\(send_state\)@Some\.0,Flushing\)$'}, expect=1, fn=f)
+    cx.guard('C17.Q1', fl, {'state-Flushing': r'^is\(var\(\w+\)@Some\.0,Flushing\)$'}, expect=1, fn=f)
     ob = cx.calls(f, r'Peekable<.*> as .*Stream>::poll_next$|Stream>::poll_next$')
     ob = [s for s in ob if 'pollable_split(arg1).1' in s.term]
-    cx.guard('C17.Q1', ob, {'not-sending': r'^!ok\(var\(send_state\)\)$'}, expect=1, fn=f)
+    cx.guard('C17.Q1', ob, {'not-sending': r'^!ok\(var\(\w+\)\)$'}, expect=1, fn=f)
     ns = cx.assigns(f, r'^Option::Some\(WriteTcpState::', place=None)
     table = [
-        (r'^Option::Some\(WriteTcpState::LenBytes\(var\(send_state\)@Some\.0@LenBytes\.pos,', {'from-LenBytes': r'^is\(var\(send_state\)@Some\.0,LenBytes\)$', 'prefix-incomplete': r'^lt\(var\(send_state\)@Some\.0@LenBytes\.pos,slice::len\(var\(send_state\)@Some\.0@LenBytes\.length\)\)$'}),
-        (r'^Option::Some\(WriteTcpState::Bytes\(subwithoverflow\(var\(send_state\)@Some\.0@LenBytes\.pos,slice::len\(var\(send_state\)@Some\.0@LenBytes\.length\)\)\.0,var\(send_state\)@Some\.0@LenBytes\.bytes\)\)$',
-         {'from-LenBytes': r'^is\(var\(send_state\)@Some\.0,LenBytes\)$', 'prefix-complete': r'^le\(slice::len\(var\(send_state\)@Some\.0@LenBytes\.length\),var\(send_state\)@Some\.0@LenBytes\.pos\)$',
-          'body-incomplete': r'^lt\(var\(send_state\)@Some\.0@LenBytes\.pos,addwithoverflow\(slice::len\(var\(send_state\)@Some\.0@LenBytes\.length\),Vec::len\(var\(send_state\)@Some\.0@LenBytes\.bytes\)\)\.0\)$'}),
-        (r'^Option::Some\(WriteTcpState::Bytes\(var\(send_state\)@Some\.0@Bytes\.pos,var\(send_state\)@Some\.0@Bytes\.bytes\)\)$',
-         {'from-Bytes': r'^is\(var\(send_state\)@Some\.0,Bytes\)$', 'body-incomplete': r'^lt\(var\(send_state\)@Some\.0@Bytes\.pos,Vec::len\(var\(send_state\)@Some\.0@Bytes\.bytes\)\)$'}),
+        (r'^Option::Some\(WriteTcpState::LenBytes\(var\(\w+\)@Some\.0@LenBytes\.pos,', {'from-LenBytes': r'^is\(var\(\w+\)@Some\.0,LenBytes\)$', 'prefix-incomplete': r'^lt\(var\(\w+\)@Some\.0@LenBytes\.pos,slice::len\(var\(\w+\)@Some\.0@LenBytes\.length\)\)$'}),
+        (r'^Option::Some\(WriteTcpState::Bytes\(subwithoverflow\(var\(\w+\)@Some\.0@LenBytes\.pos,slice::len\(var\(\w+\)@Some\.0@LenBytes\.length\)\)\.0,var\(\w+\)@Some\.0@LenBytes\.bytes\)\)$',
+         {'from-LenBytes': r'^is\(var\(\w+\)@Some\.0,LenBytes\)$', 'prefix-complete': r'^le\(slice::len\(var\(\w+\)@Some\.0@LenBytes\.length\),var\(\w+\)@Some\.0@LenBytes\.pos\)$',
+          'body-incomplete': r'^lt\(var\(\w+\)@Some\.0@LenBytes\.pos,addwithoverflow\(slice::len\(var\(\w+\)@Some\.0@LenBytes\.length\),Vec::len\(var\(\w+\)@Some\.0@LenBytes\.bytes\)\)\.0\)$'}),
+        (r'^Option::Some\(WriteTcpState::Bytes\(var\(\w+\)@Some\.0@Bytes\.pos,var\(\w+\)@Some\.0@Bytes\.bytes\)\)$',
+         {'from-Bytes': r'^is\(var\(\w+\)@Some\.0,Bytes\)$', 'body-incomplete': r'^lt\(var\(\w+\)@Some\.0@Bytes\.pos,Vec::len\(var\(\w+\)@Some\.0@Bytes\.bytes\)\)$'}),
         (r'^Option::Some\(WriteTcpState::Flushing\)$',
-         {'everything-written': r'^le\(addwithoverflow\(slice::len\(var\(send_state\)@Some\.0@LenBytes\.length\),Vec::len\(var\(send_state\)@Some\.0@LenBytes\.bytes\)\)\.0,var\(send_state\)@Some\.0@LenBytes\.pos\)$|^le\(Vec::len\(var\(send_state\)@Some\.0@Bytes\.bytes\),var\(send_state\)@Some\.0@Bytes\.pos\)$'}),
-        (r'^Option::Some\(WriteTcpState::LenBytes\(0,num::to_be_bytes\(cast<u16>\(Vec::len\(', {'not-sending': r'^!ok\(var\(send_state\)\)$', 'peer-matches': r'^eq:SocketAddr\(arg1\.peer_addr,'}),
+         {'everything-written': r'^le\(addwithoverflow\(slice::len\(var\(\w+\)@Some\.0@LenBytes\.length\),Vec::len\(var\(\w+\)@Some\.0@LenBytes\.bytes\)\)\.0,var\(\w+\)@Some\.0@LenBytes\.pos\)$|^le\(Vec::len\(var\(\w+\)@Some\.0@Bytes\.bytes\),var\(\w+\)@Some\.0@Bytes\.pos\)$'}),
+        (r'^Option::Some\(WriteTcpState::LenBytes\(0,num::to_be_bytes\(cast<u16>\(Vec::len\(', {'not-sending': r'^!ok\(var\(\w+\)\)$', 'peer-matches': r'^eq:SocketAddr\(arg1\.peer_addr,'}),
     ]
     unmatched = []
     for s in ns:
